@@ -626,7 +626,8 @@ def encoding_chunk(args):
     n = 0
     for f0 in firsts:
         for rest in itertools.product(vals, repeat=2):
-            for f in ((f0, rest[0], None, None, rest[1]), (None, f0, rest[0], rest[1], 'T'), (rest[0], None, f0, 'p', rest[1])):
+            for f in ((f0, rest[0], None, None, rest[1]), (None, f0, rest[0], rest[1], 'T'), (rest[0], None, f0, 'p', rest[1]),
+                      (None, rest[0], EMAIL, None, 'Jane.' + f0 + rest[1] + '@Example.COM')):
                 nid = NameID(name_qualifier=f[0] or None, sp_name_qualifier=f[1] or None, format=f[2] or None,
                              sp_provided_id=f[3] or None, text=f[4] or None)
                 try:
